@@ -54,13 +54,18 @@ def size(tier):
 
 
 @st.composite
-def raw_grammar(draw, max_nt=4, max_rules=8, max_terms=3, min_terms=1, undef_rate=0.08, boost=None, corner_rate=0.2):
+def raw_grammar(draw, max_nt=4, max_rules=8, max_terms=3, min_terms=1, undef_rate=0.08, boost=None, corner_rate=0.2, cycle_rate=0.15, cnf_rate=0.1):
     nV = draw(st.integers(min_terms, max_terms))
     V = TERMS[:nV]
     nN = draw(st.integers(1, max_nt))
     N = NTS[:nN]
-    if max_nt >= 3 and draw(st.integers(0, 99)) < corner_rate * 100:
+    fam = draw(st.integers(0, 99))
+    if max_nt >= 3 and fam < corner_rate * 100:
         return draw(corner_grammar(V, NTS[: max(3, nN)], max_rules))
+    if max_nt >= 3 and fam < (corner_rate + cycle_rate) * 100:
+        return draw(cycle_grammar(V, NTS[: max(3, nN)]))
+    if fam < (corner_rate + cycle_rate + cnf_rate) * 100:
+        return draw(cnf_shaped_grammar(V, N, max_rules))
     nR = draw(st.integers(1, max_rules))
     use_undef = draw(st.integers(0, 99)) < undef_rate * 100
     syms = N + V + ([UNDEF] if use_undef else [])
@@ -114,6 +119,63 @@ def corner_grammar(draw, V, N, max_rules):
         rules.append([S, body])
     order = draw(st.permutations(range(len(rules))))
     return {"S": S, "V": V, "rules": [rules[i] for i in order], "boost": True, "family": "corner"}
+
+
+@st.composite
+def cycle_grammar(draw, V, N):
+    """Third grammar family ("left-corner cycles"): k >= 3 nonterminals form a cycle X0 -> X1 ... -> X0 in
+    the left-corner graph (each step a unary rule or a left-recursive rule X -> Y t), with exits,
+    further left corners outside the cycle, and rules that enter the cycle in the middle after a token.
+    Indirect left recursion through unary rules is where memoised closures and agenda orders go wrong."""
+    S = N[0]
+    order = draw(st.permutations(N))
+    k = draw(st.integers(3, len(N)))
+    cyc, others = list(order[:k]), list(order[k:])
+    rules = []
+    for i, X in enumerate(cyc):
+        body = [cyc[(i + 1) % k]]
+        if draw(st.integers(0, 9)) < 5:
+            body.append(draw(st.sampled_from(V)))
+        rules.append([X, body])
+    for X in cyc:
+        r = draw(st.integers(0, 9))
+        if r < 5:
+            rules.append([X, [draw(st.sampled_from(V))]])
+        elif r < 7 and others:
+            rules.append([X, [draw(st.sampled_from(others))] + ([draw(st.sampled_from(V))] if draw(st.booleans()) else [])])
+        elif r < 8:
+            rules.append([X, [draw(st.sampled_from(V)), draw(st.sampled_from(cyc))]])
+    if not any(h in cyc and all(y in V for y in b) for h, b in rules):
+        rules.append([draw(st.sampled_from(cyc)), [draw(st.sampled_from(V))]])
+    for D in others:
+        rules.append([D, [draw(st.sampled_from(V))]])
+    if S not in cyc or draw(st.booleans()):
+        rules.append([S, ([draw(st.sampled_from(V))] if draw(st.integers(0, 9)) < 7 else []) + [draw(st.sampled_from(cyc))]])
+    idx = draw(st.permutations(range(len(rules))))
+    return {"S": S, "V": V, "rules": [rules[i] for i in idx], "boost": True, "family": "lc_cycle"}
+
+
+@st.composite
+def cnf_shaped_grammar(draw, V, N, max_rules):
+    """Fourth family: every rule already has a Chomsky-normal-form shape (A -> a, A -> B C, X -> eps),
+    with the start symbol allowed on right-hand sides and nullable -- 'already normal' inputs are
+    where shortcuts in the normal-form pipeline hide."""
+    rules = []
+    for _ in range(draw(st.integers(2, max_rules))):
+        h = draw(st.sampled_from(N))
+        r = draw(st.integers(0, 9))
+        if r < 4:
+            rules.append([h, [draw(st.sampled_from(V))]])
+        elif r < 9:
+            rules.append([h, [draw(st.sampled_from(N)), draw(st.sampled_from(N))]])
+        else:
+            rules.append([h, []])
+    if draw(st.integers(0, 9)) < 4:
+        rules.append([N[0], []])
+    for X in N:
+        if not any(h == X and all(y in V for y in b) for h, b in rules):
+            rules.append([X, [draw(st.sampled_from(V))]])
+    return {"S": N[0], "V": V, "rules": rules, "boost": True, "family": "cnf_shaped"}
 
 
 def repair(g, mode):
@@ -270,6 +332,8 @@ def classify(g):
         out.add("nullary_rule")
     if g.get("family") == "corner":
         out.add("family:shared_left_corners")
+    elif g.get("family"):
+        out.add("family:" + g["family"])
     return out
 
 
@@ -352,7 +416,7 @@ def automaton(draw, regime="QQ", max_states=4, max_arcs=8, alphabet=("a", "b"), 
         start = [[names[0], _end_weight(draw, regime)]]
     if boost and not stop:
         stop = [[names[n - 1], _end_weight(draw, regime)]]
-    return {"states": names, "start": start, "stop": stop, "arcs": arcs, "regime": regime, "acyclic": bool(acyclic), "alphabet": list(alphabet)}
+    return {"states": names, "start": start, "stop": stop, "arcs": arcs, "regime": regime, "acyclic": bool(acyclic), "alphabet": list(alphabet), "api": draw(st.sampled_from(["add", "add", "add", "set"]))}
 
 
 @st.composite
@@ -365,6 +429,8 @@ def transducer(draw, regime="QQ", max_states=3, max_arcs=6, A=("a", "b"), B=("a"
 
 def classify_automaton(m):
     out = set()
+    if m.get("api") == "set":
+        out.add("built_with_set_api")
     arcs = m["arcs"]
     tr = len(arcs[0]) == 5 if arcs else False
     if tr:
